@@ -109,9 +109,10 @@ def binop (P : Prim) (m : MBin) : Val → Val → Option Val
     if m.isCmp then some (.b (litCmp m a b))
     else match m with
       | .add => some (.lit (a + b)) | .sub => some (.lit (a - b)) | .mul => some (.lit (a * b))
-      | .div => some (.lit (Int.tdiv a b)) | .mod => some (.lit (Int.tmod a b))
-      | .shl => if b < 100 then some (.lit (a * 2 ^ b.toNat)) else none
-      | .shr => if b < 100 then some (.lit (a / 2 ^ b.toNat)) else none
+      | .div => if b = 0 then none else some (.lit (Int.tdiv a b))
+      | .mod => if b = 0 then none else some (.lit (Int.tmod a b))
+      | .shl => if 0 ≤ b ∧ b < 100 then some (.lit (a * 2 ^ b.toNat)) else none
+      | .shr => if 0 ≤ b ∧ b < 100 then some (.lit (a / 2 ^ b.toNat)) else none
       | _ => none
   | _, _ => none
 
